@@ -2,7 +2,7 @@
 (* Batch validation of logged cases (V direction): one TLC behaviour walks   *)
 (* the NDJSON file given in env CASES; every case is judged by the spec and  *)
 (* the verdict printed.  POSTCONDITION checks that every case was judged.    *)
-EXTENDS Naturals, Sequences, TLC, Json, IOUtils, JBinary, JFile, JWriter, JSchema, JLogical, JData, JResolve, JJson, JLoad, JForms
+EXTENDS Naturals, Sequences, TLC, Json, IOUtils, JBinary, JFile, JWriter, JSchema, JLogical, JData, JResolve, JJson, JLoad, JForms, JSession
 
 CasesIn == ndJsonDeserialize(IOEnv.CASES)
 NCases == Len(CasesIn)
@@ -21,6 +21,7 @@ Judge(c) ==
     [] c.op = "json" -> Judge_json(c)
     [] c.op = "load" -> Judge_load(c)
     [] c.op = "forms" -> Judge_forms(c)
+    [] c.op = "session" -> Judge_session(c)
     [] c.op = "union_rt" -> Judge_union_rt(c)
     [] c.op = "generate" -> Judge_generate(c)
     [] c.op = "canon" -> Judge_canon(c)
